@@ -434,6 +434,7 @@ func partE2E(r *vh.Run, refused string) {
 					wit := map[string]interface{}{"client": name, "script": script, "cancel_at_wait": j, "attempts_seen": res.Seen, "returned": errText(res.Err), "still_waiting_after_10s": hung}
 					switch {
 					case hung:
+						hungCases.Add(1)
 						r.Violation(fmt.Sprintf("C17|e2e|%s|cancel|not-prompt", name), fmt.Sprintf("%s client: context cancelled when wait %d began, ListTools had not returned 10 s later", name, j), wit)
 						res = <-done // the cancelling wait is 30 s; do not overlap the next case
 					case len(res.Seen) != j:
